@@ -7,6 +7,7 @@ import Spil.Model.Find
 import Spil.Model.Path
 import Spil.Model.FS
 import Spil.Spec.Sid
+import Spil.Generated.DemoConf
 
 open Lean
 
@@ -324,6 +325,11 @@ def step (st : State) (j : Json) : P Json := do
   | "spec_plain" => return result jsid (.ok (Spec.plainSid e c.cfg.sid.templates (← fieldStr j "s")))
   | "spec_forced" =>
     return result jsid (.ok (Spec.forcedSid e c.cfg.sid.templates (← fieldStr j "ty") (← fieldStr j "rest")))
+  | "conf_is_demo" =>
+    -- is the configuration this driver computes with the very constant the kernel-checked
+    -- obligations (Tie.*) speak about?
+    return result jbool (.ok (decide (c.cfg = Generated.demoConf) &&
+      (List.range 0x3000).all (fun n => e.isDigit (Char.ofNat n) == Generated.demoEnv.isDigit (Char.ofNat n))))
   | "spec_hier_ok" => return result jbool (.ok (Spec.sidHierOk e c.cfg.sid.templates))
   | "spec_table_ok" => return result jbool (.ok (Spec.sidTableOk e c.cfg.sid.templates))
   | "extrapolate_templates" =>
